@@ -47,12 +47,59 @@
 #include <type_traits>
 #include <x86intrin.h>
 
+#ifdef VF_SYS
+// whole-system variant (h_sys.cpp): the real frontend and backend classes are compiled against the shim as well
+#include <array>
+#include <climits>
+#include <cmath>
+#include <condition_variable>
+#include <csignal>
+#include <cstdarg>
+#include <cstdio>
+#include <cwchar>
+#include <deque>
+#include <filesystem>
+#include <iostream>
+#include <iterator>
+#include <list>
+#include <locale>
+#include <map>
+#include <mutex>
+#include <optional>
+#include <set>
+#include <sstream>
+#include <stdexcept>
+#include <system_error>
+#include <thread>
+#include <tuple>
+#include <typeinfo>
+#include <unordered_map>
+#include <utility>
+#include <variant>
+#endif
+
 #define atomic vf_atomic
 #include "quill/core/BoundedSPSCQueue.h"
 #include "quill/core/UnboundedSPSCQueue.h"
+#ifdef VF_SYS
+// ScopedThreadContext asserts "one instance per OS thread" in debug builds; the virtual threads of an exploration share one
+// OS thread and every execution creates its own contexts: that one header is compiled without its asserts
+#define NDEBUG
+#include <cassert>
 #include "quill/core/ThreadContextManager.h"
+#undef NDEBUG
+#include <cassert>
+#include "quill/Frontend.h"
+#include "quill/Logger.h"
+#include "quill/backend/BackendWorker.h"
+#include "quill/sinks/Sink.h"
+#else
+#include "quill/core/ThreadContextManager.h"
+#endif
 #undef atomic
+#ifndef VF_SYS
 #include "quill/backend/ThreadUtilities.h" // get_thread_id / get_thread_name used by the ThreadContext constructor
+#endif
 
 namespace wmm
 {
@@ -265,6 +312,9 @@ struct Cfg
   bool preset{false};
   std::vector<POp> ops;
   bool probe{true};
+  bool sc{false};
+  size_t passes{2};
+  std::vector<POp> ops2; // second frontend thread (whole-system variant)
 };
 static Cfg g_cfg;
 static size_t g_blocked_request = 0; // size of the reservation a blocked producer is waiting for
@@ -641,6 +691,23 @@ struct UnboundedHarness
 // explorer
 
 static std::function<void()> g_body[MAXT];
+static std::function<void(int)> g_on_switch; // harness hook run before a virtual thread is resumed
+template <typename H, typename = void>
+struct has_producer2 : std::false_type
+{
+};
+template <typename H>
+struct has_producer2<H, std::void_t<decltype(&H::producer2)>> : std::true_type
+{
+};
+template <typename H, typename = void>
+struct has_on_switch : std::false_type
+{
+};
+template <typename H>
+struct has_on_switch<H, std::void_t<decltype(&H::on_switch)>> : std::true_type
+{
+};
 static void tramp()
 {
   int const me = W->cur;
@@ -649,8 +716,12 @@ static void tramp()
   swapcontext(&W->th[me].ctx, &W->main_ctx);
 }
 
+#ifdef VF_SYS
+static constexpr size_t STACK = 2 * 1024 * 1024;
+#else
 static constexpr size_t STACK = 256 * 1024;
-static char* g_stacks[MAXT] = {nullptr, nullptr, nullptr};
+#endif
+static char* g_stacks[MAXT] = {};
 
 // ------------------------------------------------------------------------------------------------------------
 // C08 (drop counter): the real ThreadContext::increment_failure_counter (frontend side of a dropped statement) against the
@@ -687,6 +758,207 @@ struct CounterHarness
   }
   void teardown() { delete ctx; }
 };
+
+#ifdef VF_SYS
+// ------------------------------------------------------------------------------------------------------------
+// Whole-system harness (C03 / C06 / C20 below Engine B's granularity): one virtual frontend thread running the REAL
+// thread-context registration (ScopedThreadContext), the REAL LoggerImpl::log_statement and the REAL thread exit, against
+// the REAL BackendWorker::_poll() on the other virtual thread, interleaved at every atomic operation either side performs
+// (spinlock, new-context flag, queue positions, validity flag, invalid-context counter, ...), with every load value the
+// C++11 model admits (or, --sc 1, the latest value only).
+// ops (frontend script): r = first use (register), lN = log statement N, x = thread exit; --passes P backend polls.
+// Process-wide singletons are re-created in place for every execution; what the previous one owned was allocated during
+// that execution and has been reclaimed with it.
+struct SysOpt
+{
+  static constexpr quill::QueueType queue_type = quill::QueueType::UnboundedBlocking;
+  static constexpr size_t initial_queue_capacity = 128;
+  static constexpr uint32_t blocking_queue_retry_interval_ns = 800;
+  static constexpr size_t unbounded_queue_max_capacity = 256;
+  static constexpr quill::HugePagesPolicy huge_pages_policy = quill::HugePagesPolicy::Never;
+};
+struct SysOptBD
+{
+  static constexpr quill::QueueType queue_type = quill::QueueType::BoundedDropping;
+  static constexpr size_t initial_queue_capacity = 128;
+  static constexpr uint32_t blocking_queue_retry_interval_ns = 800;
+  static constexpr size_t unbounded_queue_max_capacity = 128;
+  static constexpr quill::HugePagesPolicy huge_pages_policy = quill::HugePagesPolicy::Never;
+};
+static std::vector<std::string>* g_sys_recs = nullptr;
+static std::vector<std::string>* g_sys_notes = nullptr;
+struct SysSink : public quill::Sink
+{
+  void write_log(quill::MacroMetadata const*, uint64_t, std::string_view, std::string_view, std::string const&, std::string_view, quill::LogLevel,
+                 std::string_view, std::string_view, std::vector<std::pair<std::string, std::string>> const*, std::string_view msg,
+                 std::string_view) override
+  {
+    g_sys_recs->push_back(std::string(msg));
+  }
+  void flush_sink() override {}
+};
+// per virtual thread clock: a function of the thread's own history (keeps the history-based state key exact)
+static uint64_t g_sys_clock[MAXT];
+extern "C" int clock_gettime(clockid_t id, struct timespec* ts)
+{
+  if (!W || !W->in_exec) return static_cast<int>(syscall(SYS_clock_gettime, id, ts));
+  uint64_t const t = 1718451898000000000ull + 1000ull * (++g_sys_clock[W->cur]) + static_cast<uint64_t>(W->cur);
+  ts->tv_sec = static_cast<time_t>(t / 1000000000ull);
+  ts->tv_nsec = static_cast<long>(t % 1000000000ull);
+  return 0;
+}
+// a sleeping / yielding virtual thread waits for a newer message at the location it looked at last (retry loops of
+// blocking log calls, flush_log, remove_logger_blocking)
+static int sys_wait()
+{
+  if (W && W->in_exec && W->cur != 0)
+  {
+    Thread& T = W->th[W->cur];
+    if (T.last_load_id >= 0)
+    {
+      block_until_newer(T.last_load_id);
+      return 0;
+    }
+  }
+  return 0;
+}
+extern "C" int nanosleep(const struct timespec*, struct timespec*) { return sys_wait(); }
+extern "C" int clock_nanosleep(clockid_t, int, const struct timespec*, struct timespec*) { return sys_wait(); }
+extern "C" int sched_yield(void) { return sys_wait(); }
+
+template <typename SysOpt>
+struct SysHarness
+{
+  using F = quill::FrontendImpl<SysOpt>;
+  using LG = quill::LoggerImpl<SysOpt>;
+  size_t refused{0}; // log calls that returned false (dropping queue)
+  quill::detail::BackendWorker* bw{nullptr};
+  LG* lg{nullptr};
+  // per virtual frontend thread (index = explorer thread id: 1 and 3)
+  quill::detail::ScopedThreadContext* stc_of[MAXT + 1]{};
+  bool registered_of[MAXT + 1]{};
+  std::vector<std::string> logged_of[MAXT + 1];
+  std::vector<std::string> recs, notes;
+  unsigned stalls{0};
+  // quill keeps the calling thread's context in a thread_local pointer; the virtual threads share one OS thread
+  void on_switch(int t) { quill::detail::LoggerBase::thread_context = (t != 2 && stc_of[t]) ? stc_of[t]->get_thread_context() : nullptr; }
+
+  template <typename T>
+  static void recreate(T& obj)
+  {
+    new (&obj) T(); // the previous object's resources belonged to the previous execution and went with it
+  }
+  void setup()
+  {
+    W->auto_spin = true;
+    W->allow_unordered_writers = true; // spinlock, counters: several writers, positions recorded in the histories
+    W->sc_only = g_cfg.sc;
+    for (int t = 0; t < MAXT; ++t) g_sys_clock[t] = 0;
+    g_sys_recs = &recs;
+    g_sys_notes = &notes;
+    recreate(quill::detail::ThreadContextManager::instance());
+    recreate(quill::detail::LoggerManager::instance());
+    recreate(quill::detail::SinkManager::instance());
+    quill::detail::LoggerBase::thread_context = nullptr;
+    bw = new quill::detail::BackendWorker();
+    quill::BackendOptions bo;
+    bo.sleep_duration = std::chrono::nanoseconds{0};
+    bo.enable_yield_when_idle = false;
+    bo.error_notifier = [](std::string const& m) { g_sys_notes->push_back(m); };
+    bo.log_timestamp_ordering_grace_period = std::chrono::microseconds{0};
+    bo.sink_min_flush_interval = std::chrono::milliseconds{0};
+    bo.transit_event_buffer_initial_capacity = 2;
+    bo.check_printable_char = {};
+    bw->_init(bo);
+    lg = F::create_or_get_logger("A", std::make_shared<SysSink>(), quill::PatternFormatterOptions{"%(message)"}, quill::ClockSourceType::System);
+  }
+  void frontend(int me, std::vector<POp> const& ops)
+  {
+    static constexpr quill::MacroMetadata md{"sys.cpp:1", "fn", "m{}.{}", nullptr, quill::LogLevel::Info, quill::MacroMetadata::Event::Log};
+    for (auto const& o : ops)
+    {
+      if (W->abort_exec) return;
+      if (o.kind == 'r' || (o.kind == 'l' && !registered_of[me]))
+      {
+        // what the first log call of a thread does (get_local_thread_context): construct the thread's scoped context
+        stc_of[me] = new quill::detail::ScopedThreadContext(SysOpt::queue_type, SysOpt::initial_queue_capacity, SysOpt::unbounded_queue_max_capacity, SysOpt::huge_pages_policy);
+        quill::detail::LoggerBase::thread_context = stc_of[me]->get_thread_context();
+        registered_of[me] = true;
+      }
+      if (W->abort_exec) return;
+      if (o.kind == 'l')
+      {
+        bool const ok = lg->template log_statement<false, false>(quill::LogLevel::None, &md, me, static_cast<int>(o.n));
+        if (W->abort_exec) return;
+        if (ok)
+          logged_of[me].push_back("m" + std::to_string(me) + "." + std::to_string(o.n));
+        else
+          ++refused;
+      }
+      else if (o.kind == 'x' && registered_of[me])
+      {
+        // thread exit: the thread-local scoped context is destroyed (a later l / r is the first use of a new thread)
+        delete stc_of[me];
+        stc_of[me] = nullptr;
+        quill::detail::LoggerBase::thread_context = nullptr;
+        registered_of[me] = false;
+      }
+    }
+  }
+  void producer() { frontend(1, g_cfg.ops); }
+  void producer2() { frontend(3, g_cfg.ops2); }
+  void consumer()
+  {
+    for (size_t i = 0; i < g_cfg.passes && !W->abort_exec; ++i) bw->_poll();
+  }
+  void probe()
+  {
+    // both virtual threads are done and joined: the backend now polls alone until nothing moves
+    for (int t = 1; t < MAXT; ++t) W->th[0].clk.join(W->th[t].clk);
+    for (size_t k = 0; k < W->th[0].view.size(); ++k) W->th[0].view[k] = static_cast<int>(W->locs[k].mo.size()) - 1;
+    W->latest_only = true;
+    size_t before = recs.size() + 1;
+    for (int i = 0; i < 12 && (recs.size() != before || i < 3); ++i)
+    {
+      before = recs.size();
+      bw->_poll();
+    }
+    W->latest_only = false;
+    size_t want = 0;
+    for (int me : {1, 3})
+    {
+      std::vector<std::string> got;
+      std::string const pre = "m" + std::to_string(me) + ".";
+      for (auto const& r : recs)
+        if (r.rfind(pre, 0) == 0) got.push_back(r);
+      if (got != logged_of[me])
+      {
+        std::string a, b;
+        for (auto const& r : got) a += r + " ";
+        for (auto const& r : logged_of[me]) b += r + " ";
+        fail("statement-lost-duplicated-or-reordered", "the sink received [" + a + "] from thread " + std::to_string(me) + " after the backend drained alone; the thread's completed log calls were [" + b + "]");
+      }
+      if (registered_of[me]) ++want;
+    }
+    size_t const ctxs = quill::detail::ThreadContextManager::instance()._thread_contexts.size();
+
+    if (ctxs != want) fail("contexts-not-reclaimed", std::to_string(ctxs) + " thread contexts retained after the drain, " + std::to_string(want) + " live thread(s) have logged");
+    size_t reported = 0;
+    for (auto const& n : notes)
+    {
+      size_t const p = n.find("Dropped ");
+      if (p != std::string::npos)
+        reported += static_cast<size_t>(atol(n.c_str() + p + 8));
+      else if (n.find("Quill INFO") == std::string::npos)
+        fail("unexpected-backend-error", n);
+    }
+    if (SysOpt::queue_type == quill::QueueType::BoundedDropping && reported != refused)
+      fail("drop-count-mismatch", "the notifier reported " + std::to_string(reported) + " dropped statements, " + std::to_string(refused) + " log calls returned false");
+    if (SysOpt::queue_type != quill::QueueType::BoundedDropping && refused) fail("blocking-call-refused", "a log call on a blocking queue returned false");
+  }
+  void teardown() {}
+};
+#endif
 
 struct ExecResult
 {
@@ -733,6 +1005,15 @@ static ExecResult run_one_inner(std::vector<int> const& prefix)
   }
   g_body[1] = [&h] { h.producer(); };
   g_body[2] = [&h] { h.consumer(); };
+  if constexpr (MAXT > 3)
+  {
+    if constexpr (has_producer2<H>::value)
+      g_body[3] = [&h] { h.producer2(); };
+    else
+      g_body[3] = [] {};
+  }
+  g_on_switch = nullptr;
+  if constexpr (has_on_switch<H>::value) g_on_switch = [&h](int t) { h.on_switch(t); };
   for (int t = 1; t < MAXT; ++t)
   {
     if (!g_stacks[t]) g_stacks[t] = static_cast<char*>(malloc(STACK));
@@ -742,6 +1023,7 @@ static ExecResult run_one_inner(std::vector<int> const& prefix)
     W->th[t].ctx.uc_link = &W->main_ctx;
     makecontext(&W->th[t].ctx, tramp, 0);
   }
+  if (MAXT > 3 && g_cfg.ops2.empty()) W->th[MAXT - 1].finished = true; // no second frontend in this configuration: never scheduled
   W->in_exec = true;
   int cur = -1;
   while (!W->abort_exec)
@@ -769,27 +1051,33 @@ static ExecResult run_one_inner(std::vector<int> const& prefix)
     if (c != 0 && cur_enabled) ++W->deviations;
     cur = en[c];
     W->cur = cur;
+    if (g_on_switch) g_on_switch(cur);
     swapcontext(&W->main_ctx, &W->th[cur].ctx);
     W->cur = 0;
   }
   W->in_exec = false;
-  bool all_done = W->th[1].finished && W->th[2].finished;
+  bool all_done = true;
+  for (int t = 1; t < MAXT; ++t) all_done = all_done && W->th[t].finished;
   if (!W->abort_exec && !all_done)
   {
     res.deadlock = true;
     std::string who;
     for (int t = 1; t < MAXT; ++t)
-      if (!W->th[t].finished) who += (t == 1 ? "producer " : "consumer ");
+      if (!W->th[t].finished) who += (t == 2 ? "consumer " : "producer ");
     // a producer that can never be served although the consumer has consumed everything is the C09 verdict
     fail("deadlock", "no thread can make progress: " + who + "blocked (a fitting record is never granted / a committed record never becomes visible)");
   }
-  if (!W->violation && all_done && g_cfg.probe) h.probe();
+  if (!W->violation && all_done && g_cfg.probe)
+  {
+    g_record_main = true; // whatever the probe allocates belongs to this execution
+    h.probe();
+    g_record_main = false;
+  }
   res.stalls = h.stalls;
   if (!W->violation && all_done)
   {
     // join = happens-before edges into main; destroying the queue touches every remaining node
-    W->th[0].clk.join(W->th[1].clk);
-    W->th[0].clk.join(W->th[2].clk);
+    for (int t = 1; t < MAXT; ++t) W->th[0].clk.join(W->th[t].clk);
     for (size_t k = 0; k < W->th[0].view.size(); ++k)
       W->th[0].view[k] = static_cast<int>(W->locs[k].mo.size()) - 1;
     W->latest_only = true;
@@ -798,7 +1086,7 @@ static ExecResult run_one_inner(std::vector<int> const& prefix)
     size_t live = 0;
     for (auto const& r : g_regions)
       if (!r.dead) ++live;
-    if (live != 0 && !W->violation) fail("buffer-leak", std::to_string(live) + " queue buffers still mapped after the queue was destroyed");
+    if (live != 0 && !W->violation && g_cfg.mode.rfind("sys", 0) != 0) fail("buffer-leak", std::to_string(live) + " queue buffers still mapped after the queue was destroyed");
   }
   if (!W->violation && g_cfg.mode == "unbounded" && quill::detail::is_power_of_two(g_cfg.maxcap) && g_max_mapped_len > 2 * g_cfg.maxcap + 16 + 2 * 128)
     fail("allocated-beyond-maximum", "a buffer of " + std::to_string(g_max_mapped_len) + " bytes was mapped, the maximum capacity is " + std::to_string(g_cfg.maxcap));
@@ -831,6 +1119,13 @@ static std::string cfg_string()
   if (g_cfg.mode == "bounded")
     return "mode=bounded itype=" + g_cfg.itype + " cap=" + std::to_string(g_cfg.cap) + " percent=" + std::to_string(g_cfg.percent) + " preset=" + std::to_string(g_cfg.preset) + " ops=" + ops;
   if (g_cfg.mode == "counter") return "mode=counter ops=" + ops;
+  if (g_cfg.mode == "sys" || g_cfg.mode == "sysbd")
+  {
+    std::string o2;
+    for (auto const& o : g_cfg.ops2) o2 += (o2.empty() ? "" : ",") + std::string(1, o.kind) + std::to_string(o.n);
+    return "mode=" + g_cfg.mode + " sc=" + std::to_string(g_cfg.sc ? 1 : 0) + " passes=" + std::to_string(g_cfg.passes) + " ops=" + ops + (o2.empty() ? "" : " ops2=" + o2);
+  }
+  if (false) return "mode=" + g_cfg.mode + " sc=" + std::to_string(g_cfg.sc ? 1 : 0) + " passes=" + std::to_string(g_cfg.passes) + " ops=" + ops;
   return "mode=unbounded initial=" + std::to_string(g_cfg.initial) + " max=" + std::to_string(g_cfg.maxcap) + " ops=" + ops;
 }
 
@@ -983,6 +1278,20 @@ int main(int argc, char** argv)
   g_cfg.initial = static_cast<size_t>(a.geti("--initial", 8));
   g_cfg.maxcap = static_cast<size_t>(a.geti("--max", 32));
   g_cfg.probe = a.geti("--probe", 1) != 0;
+  g_cfg.sc = a.geti("--sc", 0) != 0;
+  g_cfg.passes = static_cast<size_t>(a.geti("--passes", 2));
+  {
+    std::string s2 = a.get("--ops2", "");
+    size_t p2 = 0;
+    while (p2 < s2.size())
+    {
+      size_t e = s2.find(',', p2);
+      if (e == std::string::npos) e = s2.size();
+      std::string t = s2.substr(p2, e - p2);
+      if (!t.empty()) g_cfg.ops2.push_back(POp{t[0], static_cast<size_t>(atol(t.c_str() + 1))});
+      p2 = e + 1;
+    }
+  }
   {
     std::string s = a.get("--ops", "w1,w4,w8");
     size_t p = 0;
@@ -999,6 +1308,10 @@ int main(int argc, char** argv)
   {
     if (g_cfg.mode == "unbounded") return explore<UnboundedHarness>(a);
     if (g_cfg.mode == "counter") return explore<CounterHarness>(a);
+#ifdef VF_SYS
+    if (g_cfg.mode == "sys") return explore<SysHarness<SysOpt>>(a);
+    if (g_cfg.mode == "sysbd") return explore<SysHarness<SysOptBD>>(a);
+#endif
     if (g_cfg.itype == "u8") return explore<BoundedHarness<quill::detail::BoundedSPSCQueueImpl<uint8_t>>>(a);
     if (g_cfg.itype == "u16") return explore<BoundedHarness<quill::detail::BoundedSPSCQueueImpl<uint16_t>>>(a);
     return explore<BoundedHarness<quill::detail::BoundedSPSCQueueImpl<size_t>>>(a);
